@@ -49,4 +49,12 @@ PROPS = {
         "lean_modules": ["JrpcProofs.Props.C13", "JrpcProofs.Facts.Recover"],
         "assumptions": ["net/http recovers per request on its own; the library-side guarantee is doCall's recover", "the server runs in a child process; crash = the child exits"],
     },
+    "C01": {
+        "lean_modules": ["JrpcProofs.Props.C01", "JrpcProofs.Facts.Call"],
+        "assumptions": [
+            "encoding/json is a codec parameter (marshal/unmarshal per declared type); splitting a JSON array into raw elements is faithful",
+            "the harness's oracle for 'JSON round trip' is json.Unmarshal(json.Marshal(v)) into the declared type, compared with reflect.DeepEqual (floats by value and sign, raw JSON as values)",
+            "results are restricted to encoding/json-serialisable values (README)",
+        ],
+    },
 }
